@@ -45,7 +45,7 @@ fn no_thread_rng() -> ThreadRng {
 const DAY_US: u64 = 86_400_000_000;
 
 fn noop_machine() -> Machine {
-    Machine { allowed_padding_packets: 0, max_padding_frac: 0.0, allowed_blocked_microsec: 0, max_blocking_frac: 0.0, states: Vec::new() }
+    maybenot::verif::noop_machine()
 }
 fn rng() -> RngSource {
     // never drawn from (the machine step is stubbed); built without from_seed's byte loops
@@ -755,4 +755,57 @@ fn s_pick_next_blocked() {
     core::mem::forget(server);
     core::mem::forget(network);
     core::mem::forget(next);
+}
+
+// ------------------------------------------------------------------------------------------
+// C15: the "all normal packets processed" stop condition; C19: aggregate-delay bookkeeping is total
+// ------------------------------------------------------------------------------------------
+/// `no_normal_packets` may only report "done" when no normal packet is pending anywhere:
+/// in the base trace, waiting to enter the tunnel (blocked or bypassable), or in flight.
+#[kani::proof]
+#[kani::unwind(4)]
+fn s_no_normal_packets() {
+    let t = any_instant();
+    let mut sq = empty_queue();
+    let is_client: bool = kani::any();
+    // one pending event of any kind that can sit in a queue
+    let which: u8 = kani::any();
+    kani::assume(which < 5);
+    let padding: bool = kani::any();
+    let bypass: bool = kani::any();
+    let ev = match which {
+        0 => TriggerEvent::NormalSent,
+        1 => TriggerEvent::TunnelSent,
+        2 => TriggerEvent::TunnelRecv,
+        3 => TriggerEvent::NormalRecv,
+        _ => TriggerEvent::BlockingBegin { machine: MachineId::from_raw(0) },
+    };
+    let carries_padding = padding && (which == 1 || which == 2);
+    sq.push_sim(SimEvent { event: ev, time: t, integration_delay: Duration::ZERO, client: is_client, contains_padding: carries_padding,
+        bypass: bypass && which == 1, replace: false, debug_note: None });
+    let done = sq.no_normal_packets();
+    let normal_pending = which == 0 || ((which == 1 || which == 2) && !carries_padding);
+    assert!(!(done && normal_pending),
+        "C15: the run may only end as 'all normal packets processed' when no normal packet is pending in the trace, in a (blocked or bypassable) egress queue, or in flight");
+    let empty = empty_queue();
+    assert!(empty.no_normal_packets(), "C15: with nothing queued all normal packets are processed");
+    kani::cover!(which == 1 && bypass && !carries_padding, "normal packet waiting in the bypassable queue");
+    core::mem::forget(sq);
+    core::mem::forget(empty);
+}
+
+/// pushing an aggregate delay never panics (Duration arithmetic) for any blocked duration and
+/// network delay up to an hour, on either side
+#[kani::proof]
+#[kani::unwind(4)]
+fn s_push_aggregate_delay() {
+    let d = any_duration_upto(3_600_000_000);
+    let mut nb = crate::network::verif_kani::small_bottleneck(Network::new(d, None), Duration::from_secs(1), usize::MAX, Duration::ZERO);
+    let block = any_duration_upto(3_600_000_000);
+    let t = any_instant();
+    let client_expiry: bool = kani::any();
+    nb.push_aggregate_delay(block, &t, client_expiry);
+    assert!(nb.peek_aggregate_delay(t) != Duration::MAX, "C19: a pushed aggregate delay is pending");
+    kani::cover!(block > d * 3 && block < d * 4, "blocked duration between three and four network delays");
+    core::mem::forget(nb);
 }
